@@ -62,6 +62,11 @@ def run(ck, models, tier):
                     ok = False
                     why += "; load and branch use different registers"
             ck.ob("R16.1", base + "/literal-hit", tm.target, ok, "class %s: executes %s; %s" % (cname, mn, why), where(r.ev))
+            # the crate compiles for every `target_arch = "arm"`: the sequence must consist of encodings every such core decodes
+            odd = [i["mn"] for i in sim["executed"] if i["mn"] not in ("nop", "ldr_lit", "bx", "mov_reg")]
+            ck.ob("R16.1", base + "/baseline-encodings-only", tm.target, not odd,
+                  "executed instructions outside the baseline (A32 / Thumb-1) subset: %s%s" % (
+                      odd or "none", " - e.g. the NOP hint 0xBF00 exists from ARMv6T2 on and is UNDEFINED on Thumb-1 cores" if "nop_hint" in odd else ""), where(r.ev))
             # R16.2 patch address = function pointer with bit 0 cleared (Thumb) / unchanged (ARM)
             db = r.dst.get_bits()
             fb = None
